@@ -4,6 +4,7 @@ From Coq Require Import Bool NArith List Lia Arith Permutation.
 Import ListNotations.
 From RsddV Require Import Base.Bdd Base.Util Model.SddVtree Model.SddOps Proofs.SddBase.
 From RsddV Require Import Proofs.SddVtree Proofs.SddInv Proofs.SddLoops Proofs.SddNode Proofs.SddAnd Proofs.SddCond.
+From RsddV Require Model.Compile.
 
 Definition ite_ (x y z : bool) := if x then y else z.
 Definition sden_ite (t : site_t) (a : asg) : bool :=
@@ -179,6 +180,7 @@ Definition spec_op (fs : list bfun) (o : sop) : bfun :=
     (* the documented definition (builder/mod.rs): exists v. (v <=> g) /\ f *)
     fun a => let body := fun a' => Bool.eqb (a' v) (fget fs j a') && fget fs i a' in
              body (upd a v true) || body (upd a v false)
+  | OCnf f _ => Compile.cnf_eval f          (* the CNF's own semantics, whatever the sorted order *)
   end.
 Definition spec_run (fs : list bfun) (ops : list sop) : list bfun :=
   fold_left (fun fs o => fs ++ [spec_op fs o]) ops fs.
@@ -187,8 +189,16 @@ Definition spec_run (fs : list bfun) (ops : list sop) : list bfun :=
 Definition op_wf (t : vtree) (o : sop) : Prop :=
   match o with
   | OVar v _ | OCompose _ v _ => In v (vleaves t)
+  | OCnf f sorted => Permutation sorted f /\ Forall (Forall (fun l : lit => In (fst l) (vleaves t))) f
   | _ => True
   end.
+
+Lemma div2_bounds n : 2 <= n -> 1 <= Nat.div2 n /\ Nat.div2 n < n.
+Proof.
+  intros H. destruct n as [|[|n]]; try lia. simpl. pose proof (Nat.div2_decr n n (Nat.le_succ_diag_r n)). lia.
+Qed.
+Lemma forallb_perm {A} (f : A -> bool) l1 l2 : Permutation l1 l2 -> forallb f l1 = forallb f l2.
+Proof. induction 1; simpl; auto; try congruence. destruct (f x), (f y); reflexivity. Qed.
 
 Section Prog.
 (* Generic in the class W of pointers the program manipulates: W is closed under negation, contains
@@ -299,6 +309,100 @@ Proof.
   destruct (upd a v true v), (upd a v false v), (sden g (upd a v true)), (sden g (upd a v false)); reflexivity.
 Qed.
 
+(* ---- compile_cnf ---- *)
+Lemma clause_fold_ok (c : list lit) : Forall (fun l : lit => In (fst l) (vleaves t)) c ->
+  forall acc x, acc = Ok x -> U x ->
+  exists r, fold_left (fun acc l => bind acc (fun b => or_m t cm cache fuel b (SVar (fst l) (snd l)))) c acc = Ok r /\ U r /\
+            forall a, sden r a = sden x a || Compile.clause_eval a c.
+Proof.
+  induction 1 as [|l c Hl _ IH]; intros acc x -> Ux.
+  - exists x. simpl. repeat split; auto. intros a. rewrite orb_false_r. reflexivity.
+  - cbn [fold_left bind].
+    destruct (or_ok x (SVar (fst l) (snd l)) Ux (U_var _ _ Hl)) as (y & Ey & Uy & Dy).
+    destruct (IH _ y Ey Uy) as (r & Er & Ur & Dr). exists r. repeat split; auto.
+    intros a. rewrite Dr, Dy. unfold Compile.clause_eval. simpl. unfold Compile.lit_eval at 1.
+    rewrite orb_assoc. reflexivity.
+Qed.
+
+Lemma clause_ok (c : list lit) : c <> [] -> Forall (fun l : lit => In (fst l) (vleaves t)) c ->
+  exists r, clause_m t cm cache fuel c = Ok r /\ U r /\ forall a, sden r a = Compile.clause_eval a c.
+Proof.
+  intros Hne Hc. destruct c as [|[v p] rest]; [congruence|]. unfold clause_m.
+  assert (Hv : In v (vleaves t)) by (inversion Hc; auto).
+  destruct (clause_fold_ok _ Hc (Ok (SVar v p)) _ eq_refl (U_var v p Hv)) as (r & Er & Ur & Dr).
+  exists r. repeat split; auto. intros a. rewrite Dr. unfold Compile.clause_eval. cbn [existsb].
+  unfold Compile.lit_eval. cbn [sden fst snd]. destruct (Bool.eqb (a v) p); reflexivity.
+Qed.
+
+Lemma clauses_ok (cs : list (list lit)) : Forall (fun c => c <> []) cs ->
+  Forall (Forall (fun l : lit => In (fst l) (vleaves t))) cs ->
+  exists v, clauses_m t cm cache fuel cs = Ok v /\ Forall U v /\ length v = length cs /\
+            forall a, forallb (fun p => sden p a) v = Compile.cnf_eval cs a.
+Proof.
+  induction cs as [|c r IH]; intros Hne Hv.
+  - exists []. repeat split; auto.
+  - inversion Hne; subst. inversion Hv; subst.
+    destruct (clause_ok c) as (x & Ex & Ux & Dx); auto. destruct IH as (v & Ev & Uv & Lv & Dv); auto.
+    exists (x :: v). cbn [clauses_m]. rewrite Ex. cbn [bind]. rewrite Ev. cbn [bind]. repeat split; auto.
+    + simpl. congruence.
+    + intros a. simpl. rewrite Dx, Dv. reflexivity.
+Qed.
+
+Lemma cnf_helper_ok : forall hf vec, length vec < hf -> Forall U vec ->
+  exists o, cnf_helper t cm cache fuel hf vec = Ok o /\
+    match o with
+    | None => vec = []
+    | Some x => vec <> [] /\ U x /\ forall a, sden x a = forallb (fun p => sden p a) vec
+    end.
+Proof.
+  induction hf as [|hf IH]; intros vec Hl Hu; [lia|].
+  cbn [cnf_helper]. destruct vec as [|x [|y rest]].
+  - exists None. auto.
+  - exists (Some x). split; auto. inversion Hu; subst. repeat split; auto; try discriminate.
+    intros a. simpl. rewrite andb_true_r. reflexivity.
+  - set (vec := x :: y :: rest) in *. set (k := Nat.div2 (length vec)).
+    assert (Hk : 1 <= k /\ k < length vec) by (apply div2_bounds; simpl; lia).
+    assert (H1 : length (firstn k vec) = k) by (apply firstn_length_le; lia).
+    assert (H2 : length (skipn k vec) = length vec - k) by apply skipn_length.
+    assert (Hsplit : firstn k vec ++ skipn k vec = vec) by apply firstn_skipn.
+    assert (Hu' : Forall U (firstn k vec) /\ Forall U (skipn k vec)) by (apply Forall_app; rewrite Hsplit; exact Hu).
+    destruct Hu' as [Ul Ur].
+    destruct (IH (firstn k vec)) as (ol & El & Hol); [lia | auto |].
+    destruct (IH (skipn k vec)) as (or_ & Er & Hor); [lia | auto |].
+    rewrite El. cbn [bind]. rewrite Er. cbn [bind].
+    destruct ol as [xl|]; [|exfalso; rewrite Hol in H1; change (length (@nil sdd)) with 0 in H1; lia].
+    destruct or_ as [xr|]; [|exfalso; rewrite Hor in H2; change (length (@nil sdd)) with 0 in H2; lia].
+    destruct Hol as (_ & Uxl & Dl). destruct Hor as (_ & Uxr & Dr).
+    destruct (and_ok xl xr Uxl Uxr) as (z & Ez & Uz & Dz). rewrite Ez. cbn [bind].
+    exists (Some z). split; auto. repeat split; auto; try discriminate.
+    intros a. rewrite Dz, Dl, Dr, <- forallb_app, Hsplit. reflexivity.
+Qed.
+
+Lemma compile_cnf_ok (f sorted : list (list lit)) : Permutation sorted f ->
+  Forall (Forall (fun l : lit => In (fst l) (vleaves t))) f ->
+  exists r, compile_cnf_m t cm cache fuel f sorted = Ok r /\ U r /\ forall a, sden r a = Compile.cnf_eval f a.
+Proof.
+  intros P Hv. unfold compile_cnf_m.
+  destruct (Nat.eqb_spec (length f) 0) as [E0|E0].
+  { destruct f; [|discriminate]. exists ST. repeat split; auto. }
+  destruct (existsb (fun c : list lit => Nat.eqb (length c) 0) f) eqn:Ee.
+  { exists SF. repeat split; auto. intros a. simpl. symmetry. unfold Compile.cnf_eval.
+    apply existsb_exists in Ee. destruct Ee as (c & Hin & Hc). destruct c; [|discriminate].
+    apply not_true_is_false. intros Ht. rewrite forallb_forall in Ht. specialize (Ht [] Hin). discriminate. }
+  assert (Hne : Forall (fun c : list lit => c <> []) sorted).
+  { apply Forall_forall. intros c Hc Ec. subst c.
+    assert (Hin : In [] f) by (eapply Permutation_in; eauto).
+    assert (existsb (fun c : list lit => Nat.eqb (length c) 0) f = true) by (apply existsb_exists; exists []; auto).
+    congruence. }
+  assert (Hv' : Forall (Forall (fun l : lit => In (fst l) (vleaves t))) sorted) by (rewrite P; exact Hv).
+  destruct (clauses_ok sorted Hne Hv') as (v & Ev & Uv & Lv & Dv). rewrite Ev. cbn [bind].
+  destruct (cnf_helper_ok (S (length v)) v ltac:(lia) Uv) as (o & Eo & Ho). rewrite Eo. cbn [bind].
+  destruct o as [x|].
+  - destruct Ho as (_ & Ux & Dx). exists x. repeat split; auto. intros a. rewrite Dx, Dv.
+    unfold Compile.cnf_eval. apply forallb_perm. exact P.
+  - exfalso. subst v. simpl in Lv. apply E0. rewrite <- (Permutation_length P). auto.
+Qed.
+
 (* ---- programs ---- *)
 Definition pool_ok (pool : list sdd) (fs : list bfun) : Prop := Forall2 denotes pool fs.
 
@@ -316,7 +420,7 @@ Lemma step_ok pool fs ic o : pool_ok pool fs -> ic_sound ic -> op_wf t o ->
 Proof.
   intros Hp Hic Hw. unfold step_m.
   assert (G := fun i => pget_ok pool fs i Hp).
-  destruct o as [| |v pol|i|i j|i j|i j|i j|i j k|i v b|i v|i v j]; cbn [bind spec_op].
+  destruct o as [| |v pol|i|i j|i j|i j|i j|i j k|i v b|i v|i v j|f sorted]; cbn [bind spec_op].
   - eexists _, _. split; [reflexivity|]. split; auto. apply pool_ok_snoc; auto. split; [auto|reflexivity].
   - eexists _, _. split; [reflexivity|]. split; auto. apply pool_ok_snoc; auto. split; [auto|reflexivity].
   - eexists _, _. split; [reflexivity|]. split; auto. apply pool_ok_snoc; auto. split; [apply U_var; exact Hw|reflexivity].
@@ -355,6 +459,8 @@ Proof.
     destruct (compose_ok ic _ v _ Hic Hw Ui Uj) as (r & ic' & E & Hic' & Ur & D). rewrite E. cbn [bind fst snd].
     eexists _, _. split; [reflexivity|]. split; auto. apply pool_ok_snoc; auto.
     split; auto. intros a. rewrite D, !Di, !Dj. reflexivity.
+  - destruct Hw as [P Hv]. destruct (compile_cnf_ok f sorted P Hv) as (r & E & Ur & D). rewrite E. cbn [bind].
+    eexists _, _. split; [reflexivity|]. split; auto. apply pool_ok_snoc; auto. split; auto.
 Qed.
 
 Theorem run_ok : forall ops pool fs ic, pool_ok pool fs -> ic_sound ic -> Forall (op_wf t) ops ->
@@ -401,4 +507,10 @@ Definition ite_ok_u := ite_ok t cm cache fuel U (under_sneg t 0) (U_T t 0) (U_F 
 Definition exists_ok_u := exists_ok t cm cache fuel U (under_sneg t 0) and_ok_u condition_ok_u.
 Definition compose_ok_u := compose_ok t cm cache fuel U (under_sneg t 0) (U_T t 0) (U_F t 0) U_var_u and_ok_u condition_ok_u.
 Definition run_ok_u := run_ok t cm cache fuel U (under_sneg t 0) (U_T t 0) (U_F t 0) U_var_u and_ok_u condition_ok_u.
+Lemma compile_cnf_ok_u (f sorted : list (list lit)) : Permutation sorted f ->
+  Forall (Forall (fun l : lit => In (fst l) (vleaves t))) f ->
+  exists r, compile_cnf_m t cm cache fuel f sorted = Ok r /\ U r /\ forall a, sden r a = Compile.cnf_eval f a.
+Proof.
+  apply (compile_cnf_ok t cm cache fuel U); auto using under_sneg, U_var_u, and_ok_u; constructor.
+Qed.
 End ProgUnder.
